@@ -13,10 +13,6 @@ Require Import Verif.gen.Consts_loop Verif.LoopModel Verif.LoopProofs_C08a Verif
 Import ListNotations.
 Open Scope Z_scope.
 
-(* the tree contains the two repairs this property needs (probed by harness/consts/loop.c on every run) *)
-Theorem C08_tree_repaired : fx_sigdel tree_fixes = true /\ fx_polladd tree_fixes = true.
-Proof. exact tree_repaired. Qed.
-
 (* the kernel the check ran on behaves as the virtual epoll of harness and model assumes (probed on every run) *)
 Theorem C08_kernel_epoll_as_modelled : LOOP_KERNEL_EPOLL_AS_MODELLED = 1.
 Proof. exact kernel_model_probe. Qed.
@@ -134,6 +130,11 @@ Example C08_example_repaired :
   existsb (fun e => match e with EvDel 3 2 => true | _ => false end) (out (run_history_fx fixes_all beh_none hist_sigdel [])) = true /\
   length (filter (fun e => match e with EvInv 3 2 => true | _ => false end) (out (run_history_fx fixes_all beh_none hist_sigdel []))) = O.
 Proof. exact signal_del_repaired_witness. Qed.
+
+(* LAST, so that on a tree without the repairs only this obligation breaks: the tree the constants were probed from
+   contains the two repairs the theorems above are about (behavioural probes of harness/consts/loop.c, on every run) *)
+Theorem C08_tree_repaired : fx_sigdel tree_fixes = true /\ fx_polladd tree_fixes = true.
+Proof. exact (conj eq_refl eq_refl). Qed.
 
 Print Assumptions C08_tree_repaired.
 Print Assumptions C08_kernel_epoll_as_modelled.
